@@ -20,6 +20,8 @@ type lkAnn struct {
 	Kind  string `json:"kind"` // Path Query Header FormField Body
 	Ref   string `json:"ref"`
 	Alias string `json:"alias,omitempty"`
+	// AliasRaw, when set, is written verbatim as the value of the `name` property (wrong-typed aliases)
+	AliasRaw string `json:"aliasRaw,omitempty"`
 }
 
 type lkParam struct {
@@ -133,6 +135,11 @@ func lkWellLinked(prefix string, r lkRoute) []string {
 		}
 	}
 	r1 := true
+	for _, a := range r.Anns {
+		if a.AliasRaw != "" { // a name property that is not a string binds nothing
+			r1 = false
+		}
+	}
 	for n, c := range nameCount {
 		if c != 1 || bindCount[n] != 1 {
 			r1 = false
@@ -224,7 +231,7 @@ func lkGenRoute(t *rapid.T, idx int, file string) lkRoute {
 		if rapid.Bool().Draw(t, "lit") {
 			segs = append(segs, "x")
 		}
-		typ := rapid.SampledFrom([]string{"string", "int", "int64", "models.Color", "models.Ident", "bool"}).Draw(t, "ptype")
+		typ := rapid.SampledFrom([]string{"string", "int", "int64", "models.Color", "models.Ident", "bool", "*string", "*int"}).Draw(t, "ptype")
 		if rapid.IntRange(0, 2).Draw(t, "aliased") == 0 {
 			pn := "p" + tn
 			r.Params = append(r.Params, lkParam{pn, typ})
@@ -291,7 +298,7 @@ func lkGenRoute(t *rapid.T, idx int, file string) lkRoute {
 }
 
 var lkPertKinds = []string{"dropAnn", "dupAnn", "renameRef", "retarget", "strayAnn", "aliasUnknown", "aliasDup", "dupTemplateName", "unboundTemplateName",
-	"prefixParam", "pathNotInTemplate", "extraParam", "twoBodies", "bodyAndForm", "retype", "bodyPrimitive", "results", "verb", "changeKind", "neutralAlias", "secCollision"}
+	"aliasWrongType", "prefixParam", "pathNotInTemplate", "extraParam", "twoBodies", "bodyAndForm", "retype", "bodyPrimitive", "results", "verb", "changeKind", "neutralAlias", "secCollision"}
 
 func lkGen(t *rapid.T) lkModel {
 	var m lkModel
@@ -404,6 +411,11 @@ func lkApply(m lkModel) ([]lkCtrl, []string) {
 				r.Anns[i].Alias = "nope"
 				applied = append(applied, "aliasUnknown:"+r.Anns[i].Ref)
 			}
+		case "aliasWrongType":
+			if i := annIdx(isPath, p.A); i >= 0 {
+				r.Anns[i].AliasRaw = []string{"5", "true", "[\"id\"]", "{a: 1}", "null"}[p.B%5]
+				applied = append(applied, "aliasWrongType:"+r.Anns[i].Ref)
+			}
 		case "aliasDup":
 			i, j := annIdx(isPath, 0), annIdx(isPath, 1)
 			if i >= 0 && j >= 0 && i != j {
@@ -513,7 +525,9 @@ func (r lkRoute) docLines() []string {
 	lines = append(lines, "// @Method("+r.Verb+")", "// @Route("+r.Route+")")
 	for _, a := range r.Anns {
 		l := "// @" + a.Kind + "(" + a.Ref
-		if a.Alias != "" {
+		if a.AliasRaw != "" {
+			l += ", { name: " + a.AliasRaw + " }"
+		} else if a.Alias != "" {
 			l += ", { name: \"" + a.Alias + "\" }"
 		}
 		lines = append(lines, l+") üñï desc")
@@ -565,6 +579,20 @@ func lkProject(ctrls []lkCtrl, noise []int) *projgen.Project {
 		{Name: "Color", Pkg: "models", File: "models.go", Kind: "enum", Base: "string", Consts: []projgen.EnumConst{{Name: "Red", Value: `"red"`}, {Name: "Blue", Value: `"blue"`}}},
 		{Name: "Ident", Pkg: "models", File: "models.go", Kind: "alias", Base: "string"},
 		{Name: "ApiError", Pkg: "api", File: "errors.go", Kind: "struct", EmbedsError: true, Fields: []projgen.Field{{Name: "Code", Type: projgen.Prim("int")}}},
+	}
+	declared := map[string]bool{"apiKeyAuth": true}
+	for _, c := range ctrls {
+		for _, r := range c.Routes {
+			for _, l := range r.PreDoc {
+				if strings.HasPrefix(l, "// @Security(") {
+					name := strings.TrimSuffix(strings.TrimPrefix(l, "// @Security("), ")")
+					if !declared[name] {
+						declared[name] = true
+						p.Config.Schemes = append(p.Config.Schemes, projgen.Scheme{Name: name, Type: "apiKey", In: "header", FieldName: "X-" + name, Description: "scheme named like a parameter"})
+					}
+				}
+			}
+		}
 	}
 	for _, c := range ctrls {
 		tag := c.Name
